@@ -156,9 +156,16 @@ fn qd_unit(realm: bool, r: u16) -> String {
             if realm {
                 "~".to_string()
             } else {
-                // quoted-pair with a control character (allowed by the grammar for NONCE)
-                let c = [0x01u8, 0x09, 0x0B, 0x0C, 0x0E, 0x1F, 0x7F][(v % 7) as usize];
-                format!("\\{}", c as char)
+                // quoted-pair with a control character, or raw linear white space (both allowed by the grammar for NONCE)
+                match v % 10 {
+                    7 => "\t".to_string(),
+                    8 => "\r\n ".to_string(),
+                    9 => "\r\n\t".to_string(),
+                    k => {
+                        let c = [0x01u8, 0x09, 0x0B, 0x0C, 0x0E, 0x1F, 0x7F][k as usize];
+                        format!("\\{}", c as char)
+                    }
+                }
             }
         }
     }
@@ -170,7 +177,7 @@ pub fn arb_quoted(realm: bool) -> BoxedStrategy<String> {
     (
         arb_len(if realm { 1 } else { 0 }, 509),
         vec(any::<u16>(), 1..24),
-        0u8..16, // cookie / wrapping selector
+        0u8..32, // cookie / wrapping selector
         0u8..4,  // feature bits
     )
         .prop_map(move |(len, seed, sel, bits)| {
@@ -212,6 +219,13 @@ pub fn arb_quoted(realm: bool) -> BoxedStrategy<String> {
                 2 if inner.len() + 2 <= 509 => format!(" {} ", inner),
                 // quoted-pair of a space as the very last unit
                 3 if inner.len() + 2 <= 509 => format!("{}\\ ", inner),
+                // longer runs of backslashes in front of what the constructor trims:
+                // escaped backslash + escaped quote inside quotes; escaped backslash + escaped space + blank;
+                // escaped backslash + closing quote; escaped backslash + blank
+                4 if inner.len() + 6 <= 509 => format!("\"{}\\\\\\\"\"", inner),
+                5 if inner.len() + 5 <= 509 => format!("{}\\\\\\  ", inner),
+                6 if inner.len() + 4 <= 509 => format!("\"{}\\\\\"", inner),
+                7 if inner.len() + 3 <= 509 => format!("{}\\\\ ", inner),
                 _ => inner,
             }
         })
